@@ -61,6 +61,11 @@ def text_of(value):
     return value
 
 
+def clean(text):
+    """text field as exposed: padding removed (blanks on both sides, or trailing NULs)"""
+    return text.rstrip("\0").strip()
+
+
 def conv_float(text, factor=None):
     t = text.strip()
     if not t:
@@ -90,7 +95,7 @@ def convert(leaf):
             return labels.get(v, v)
         return v
     if codec == "A-str":
-        v = text_of(leaf.value).strip()
+        v = clean(text_of(leaf.value))
         if enum is not None:
             labels = {str(code): label for label, code in enum.items()}
             if v in labels:
@@ -203,7 +208,7 @@ def scalar_match(exp, obs, scaled, kind=None):
             o = parse_iso(obs)
         except ValueError:
             return False
-        return abs((o - exp).total_seconds()) <= 1e-6
+        return o == exp
     if isinstance(exp, bool) or isinstance(obs, (bool, np.bool_)):
         return isinstance(obs, (bool, np.bool_)) and isinstance(exp, bool) and bool(obs) == exp
     if isinstance(exp, str):
@@ -211,7 +216,14 @@ def scalar_match(exp, obs, scaled, kind=None):
     if isinstance(exp, complex):
         if not isinstance(obs, (complex, np.complexfloating)):
             return False
-        return float_match(exp.real, obs.real, scaled) and float_match(exp.imag, obs.imag, scaled)
+        re_ok = float_match(exp.real, obs.real, scaled)
+        im_ok = float_match(exp.imag, obs.imag, scaled)
+        if math.isnan(exp.real) != math.isnan(exp.imag):
+            # one of the two columns is blank: that half must be NaN; the written half may read as
+            # written or be missing as well (x + 1j*nan), but is never another number
+            re_ok = re_ok or math.isnan(obs.real)
+            im_ok = im_ok or math.isnan(obs.imag)
+        return re_ok and im_ok
     if isinstance(exp, float):
         if not isinstance(obs, (float, np.floating)):
             return False
@@ -548,7 +560,7 @@ def expected_image(iinfo, gname):
             continue
         text = text_of(leaf.value)
         key = f"{prefix}@{name}"
-        if not text.strip():
+        if not clean(text):
             if leaf.codec == "A-str":
                 either[key] = ""
             else:
@@ -557,7 +569,7 @@ def expected_image(iinfo, gname):
         if name == "valid_range":
             exp.set_attr(key, [0, conv_int(text)], kind="int-list")
         elif leaf.codec == "A-str":
-            exp.set_attr(key, text.strip())
+            exp.set_attr(key, clean(text))
         else:
             exp.set_attr(key, conv_int(text))
     for i, leaves in enumerate(iinfo["line_leaves"]):
